@@ -26,13 +26,15 @@ EXPLANATION = ('theorems C18_* (coq/props/C18.v) hold for every signature, every
 TRUSTED = ['modelled, not verified: CPython argument binding (inspect.getcallargs is the reference, itself compared on every generated call), dict key equality / '
            'hashing of tuples, copy.copy of a wrapper']
 ASSUMPTIONS = ['no keyword-only parameters; parameter names distinct from the *args / **kw names', 'the wrapped function is deterministic given its evaluation count and does not raise (cache claims)',
-               'arguments are ints, floats, bools, None, str, and tuples / lists / str-keyed dicts of these (no sets, no NaN)']
+               'arguments are ints, floats, bools, None, str, and tuples / lists / str-keyed dicts of these (no NaN)',
+               'cache: arguments that stay unhashable after normalisation (sets, pandas objects) are deliberately not cached - f runs on every call (tests/test_cache.py::test_cache_revert_to_no_cache expects it)']
 EXHAUSTIVE = {'quick': False, 'thorough': False}
 LEVEL_TEXT = ('machine-checked Coq theorems (C18_*) for every signature / call / wrapper chain / call sequence about executable models of getcallargs, '
               'call_with_callargs, wrapper construction, try_*, kwargs_support and cache; the models are compared with the real code inside Coq on all 60 '
               'signatures x all calls (936 valid), all stacks of <= 3 decorators and generated cache histories')
 LEVEL_NOTE = ('trusted: Coq kernel/vm_compute; reference binding = inspect.getcallargs. Known finding: kwargs_support drops undeclared keywords even when f '
-              'declares **kwargs (documented, relied upon by Dict.apply / kwpartial)')
+              'declares **kwargs (documented, relied upon by Dict.apply / kwpartial). Known finding: parameter names colliding with the own argument names of the wrappers '
+              '(axis popped by loops, self by keyword in every wrapper, function by keyword in getcallargs; Coq: C18_reserved_names_refuted)')
 TECHNIQUE = 'Coq proof (induction over parameter lists, wrapper chains and call sequences; refinement of the dict-update implementation to the binding spec) + differential correspondence in vm_compute'
 
 # variants of the try_value and loops wrapper types (same wrapper class, other parameters)
@@ -51,6 +53,9 @@ def uncode(x):
     return x
 
 NAMES = ['a', 'b', 'c', 'd']
+RESERVED = ['axis', 'self', 'function']      # parameter names that collide with the wrappers' own argument names (KNOWN FINDING c18_reserved_parameter_names)
+def pnames(case):
+    return case.get('pnames') or NAMES[:case['npos']]
 UNDECL = 'zz'
 DECOS = ['try_none', 'try_back', 'kwargs_support', 'cache', 'loop', 'pd2np']
 TYPE_OF = {'try_none': 'try_value', 'try_back': 'try_back', 'kwargs_support': 'kwargs_support', 'cache': 'cache_func', 'loop': 'loops', 'pd2np': 'pd2np'}
@@ -62,7 +67,7 @@ def coq_str(s):
 def coq_sig(c):
     n, nd = c['npos'], c['ndef']
     return '{| pos := [%s]; defs := [%s]; varargs := %s; varkw := %s |}' % (
-        '; '.join(coq_str(x) for x in NAMES[:n]), '; '.join('(%d)' % (100 + i) for i in range(n - nd, n)),
+        '; '.join(coq_str(x) for x in pnames(c)), '; '.join('(%d)' % (100 + i) for i in range(n - nd, n)),
         'true' if c['va'] else 'false', 'true' if c['vk'] else 'false')
 def coq_call(c):
     return '([%s], [%s])' % ('; '.join('(%d)' % a for a in c['args']), '; '.join('(%s, (%d))' % (coq_str(k), v) for k, v in c['kw']))
@@ -123,10 +128,11 @@ def RAISE():
 
 def make_f(case, raises=False):
     n, nd = case['npos'], case['ndef']
-    params = [NAMES[i] + ('=%d' % (100 + i) if i >= n - nd else '') for i in range(n)]
+    NM = pnames(case)
+    params = [NM[i] + ('=%d' % (100 + i) if i >= n - nd else '') for i in range(n)]
     if case['va']: params.append('*args')
     if case['vk']: params.append('**kw')
-    body = 'RAISE()' if raises else 'BIND(dict(%s), %s, %s)' % (', '.join('%s=%s' % (x, x) for x in NAMES[:n]), 'args' if case['va'] else 'None', 'kw' if case['vk'] else 'None')
+    body = 'RAISE()' if raises else 'BIND(dict(%s), %s, %s)' % (', '.join('%s=%s' % (x, x) for x in NM), 'args' if case['va'] else 'None', 'kw' if case['vk'] else 'None')
     return eval('lambda %s: %s' % (', '.join(params), body), {'BIND': BIND, 'RAISE': RAISE})
 
 def outcome(f, *a, **k):
@@ -166,7 +172,7 @@ def impl_bind(case):
 
 def sig_text(case):
     n, nd = case['npos'], case['ndef']
-    params = [NAMES[i] + ('=%d' % (100 + i) if i >= n - nd else '') for i in range(n)] + (['*args'] if case['va'] else []) + (['**kw'] if case['vk'] else [])
+    params = [pnames(case)[i] + ('=%d' % (100 + i) if i >= n - nd else '') for i in range(n)] + (['*args'] if case['va'] else []) + (['**kw'] if case['vk'] else [])
     return 'f(%s)' % ', '.join(params)
 
 def chain_of(w):
@@ -217,7 +223,7 @@ def impl_stack(case):
         inspect.getcallargs(f, *a, **k); valid = True
     except TypeError:
         valid = False
-    declared = NAMES[:case['npos']]
+    declared = pnames(case)
     undeclared = [x for x in k if x not in declared]
     kws_finding = False
     if viol is None:
@@ -404,6 +410,18 @@ def gen_cases(rng, tier):
             if v: valid.append((sig, call))
             if v or not quick or rng.random() < 0.35:
                 cases.append(dict(kind='bind', **sig, **call))
+    # parameters NAMED like the wrappers' own arguments: loops pops a keyword axis, wrapper.__call__ owns self, getcallargs owns function
+    for nm in RESERVED:
+        for nd in (0, 1):
+            for va, vk in ((False, False), (True, True), (False, True)):
+                sig = {'npos': 2, 'ndef': nd, 'va': va, 'vk': vk, 'pnames': ['a', nm]}
+                calls = [{'args': [1], 'kw': [[nm, 7]]}, {'args': [], 'kw': [['a', 10], [nm, 7]]}, {'args': [1, 7], 'kw': []}] + ([{'args': [1], 'kw': []}] if nd else [])
+                for call in calls:
+                    cases.append(dict(kind='bind', **sig, **call))
+                    for d in DECOS:
+                        cases.append(dict(kind='stack', decos=[d], raises=False, **sig, **call))
+                    cases.append(dict(kind='stack', decos=['loop', 'try_none'], raises=False, **sig, **call))
+                    cases.append(dict(kind='stack', decos=['kwargs_support', 'cache', 'loop'], raises=False, **sig, **call))
     special_valid = []
     for sig in all_sigs():
         for call in special_calls(sig):
